@@ -781,6 +781,20 @@ func (t *transitiveClosure) addFieldType(field *descriptorpb.FieldDescriptorProt
 			// The field's type is excluded, so this field is also excluded.
 			return false, nil
 		}
+		if entry, ok := info.element.(*descriptorpb.DescriptorProto); ok && entry.GetOptions().GetMapEntry() {
+			// A map entry without its value field is not a valid map. If the type of the
+			// key or value is excluded, the map field and its entry are excluded as well.
+			for _, entryField := range entry.GetField() {
+				if entryField.GetTypeName() == "" {
+					continue
+				}
+				entryTypeName := protoreflect.FullName(strings.TrimPrefix(entryField.GetTypeName(), "."))
+				if entryTypeInfo, ok := imageIndex.ByName[entryTypeName]; ok && t.elements[entryTypeInfo.element] == inclusionModeExcluded {
+					t.elements[info.element] = inclusionModeExcluded
+					return false, nil
+				}
+			}
+		}
 		err := t.addElement(info.element, referrerFile, false, imageIndex, opts)
 		if err != nil {
 			return false, err
